@@ -17,7 +17,7 @@ NA = {
     "C14": "pure function of one code object (iteration enumerates nested code; the generators read only immutable data, so even interleaving two iterations cannot matter)",
 }
 
-PENDING = {k: "claimed in DESIGN.md; check under construction in this session (not yet registered)" for k in ["C07", "C11", "C15", "C16"]}
+PENDING = {k: "claimed in DESIGN.md; check under construction in this session (not yet registered)" for k in ["C07", "C15", "C16"]}
 
 CHECKS = {
     "C06": {
@@ -35,6 +35,14 @@ CHECKS = {
         "technique": "deterministic simulation: seeded construction routes (decode, normalize, code trip, JSON/pickle/marshal reload, recompile, leaf-by-leaf clone = identity loss; confusable twin programs) feeding a pool whose every pair and triple is checked against the value contract and a strict to_code() fingerprint partition; complete confusable-constant table cross-checked against CPython's _PyCode_ConstantKey",
         "text": "Seeded search over routes by which equal (or confusably different) CodeData/Constant values come to exist in one process - where object identity of constants, the hidden state the hash/eq contract depends on, differs - on real CPython 3.7-3.10 under seeded hash seeds; every pair/triple in the pool is checked for hashability, equivalence-relation laws, equal=>equal-hash and set/dict behaviour, == versus the strict fingerprint of to_code(), and immutability. Sampling of routes and programs; the finite confusables table is enumerated completely.",
         "note": "Trusted: strict fingerprints (sim/fp.py) as the reference partition, cross-checked on every constant pair against ctypes _PyCode_ConstantKey with NaNs interned (a disagreement is a harness error).",
+    },
+    "C11": {
+        "engine": "C-header-fault-store",
+        "category": "fault_enumeration",
+        "design_ref": "DESIGN.md section 6",
+        "technique": "fault injection on state at rest with a detect-or-preserve oracle: every single-bit flip of co_flags, every small delta and swap of the argument counts (exhaustive per base object), seeded multi-bit masks and combinations, applied to stored code objects of seeded programs on CPython 3.7-3.10; flag words alone enumerated (all 2^18 known subsets on 3.9/3.10 in thorough) cold and warm",
+        "text": "Enumerates the header-fault space per base code object (31 single-bit flag flips, 15 count deltas, 3 swaps - complete - plus seeded masks/combos) over seeded families of base objects on four interpreters, and the flag-word space (complete over known-flag subsets on 3.9/3.10 in the thorough tier; every subset with <=3 flags set or clear plus seeded samples on 3.7/3.8 where the IntFlag cache makes conversions quadratic). Oracle is the property's own: from_code raises or to_code() reproduces every header field exactly. The fault space per object is finite and enumerated; the base-object space is sampled.",
+        "note": "Trusted: CPython's code constructor (what it refuses to build cannot reach the library and is counted separately); header comparison by the harness. Interpreters run without -O.",
     },
     "C12": {
         "engine": "A-history-machine",
